@@ -94,11 +94,6 @@ class SymMath:
             raise core.Inconclusive("log2 of a log-domain value")
         if isinstance(x, Sym):
             return core.SLog(x)                      # enters the log domain: log2(r) is represented by r
-        f = Fraction(x)
-        if f > 0 and (f.numerator == 1 or f.denominator == 1):
-            n, d = f.numerator, f.denominator
-            if n & (n - 1) == 0 and d & (d - 1) == 0:
-                return core.SLog(f)                  # exact power of two (e.g. log2(0.25)): keep it exact
         return math.log2(x)
 
     def pow(self, b, e):
